@@ -214,7 +214,7 @@ theorem emit_sh (root cur : Nat) : ∀ (e : Expr F) (s s' : LState F), Sh P0 s s
     simpa [Val.rl, shRoot, shKind, shI, e1] using h1
   | .emptyNested, s, s', h => by
     simp only [emit, rlE]
-    have := h.pushConst .put (.expr root) (.inl rfl)
+    have := h.pushConst .put (.expr cur) (.inl rfl)
     simpa [Val.rl] using this
   | .reapply x, s, s', h => by
     simp only [emit, rlE]
